@@ -46,7 +46,7 @@ class C18(Prop):
     ASSUMPTIONS = ["every .subckt/.gate carries a .cname (instance names by net convention are not part "
                    "of the property); .latch statements of one file use one form",
                    "the first model of the file is the top; black boxes are declared after it"]
-    N = {"quick": 2400, "thorough": 30000}
+    N = {"quick": 6400, "thorough": 80000}
     CASE_TIMEOUT_S = 60
 
     def strategy(self, tier):
